@@ -44,6 +44,7 @@
   `decided_class_bound`.
 -/
 import GoblVerif.Proofs.CalcErrorMore
+import GoblVerif.Proofs.CalcErrorInc
 import GoblVerif.Spec.C01
 import GoblVerif.Generated.CalcFacts
 import GoblVerif.Proofs.CalcError
@@ -1021,6 +1022,243 @@ example : DocC retEx dueDoc ∧ dueDoc.hasPayment = true ∧ (∀ x ∈ dueDoc.d
   rcases hx with rfl | rfl
   · exact Or.inl ⟨_, rfl, rfl, by norm_num [Amount.toRat, pow10]⟩
   · exact Or.inr (Or.inl rfl)
+
+/-! ## prices that include one tax category (`prices_include`)
+
+`removeIncludedTaxes` divides the prepared total (currency + 2 decimals at least) of every row that
+carries a combo of the included category with a percentage by 1 + that percentage: one more rounding
+point for that row (`incB`), and a contraction of the error it already carried (percentage ≥ 0).
+`tax_included` is the unrounded amount of the included category: its rounding points are the rate
+groups of that category (`Gk = incGroupsT d.includes t`) and it carries the rows' errors once per combo
+of the category on the row (`kN`); it is subtracted from `total`.
+
+Weights (`Spec/C01.lean`): `rowsWL L inc d = Σ_lines (lineW l + incB)·L l.taxes + Σ_{document
+discounts, charges} (1 + sumW + incB)·L x.taxes`; `taxWI d G = G + rowsWL comboW`,
+`incWI d Gk = Gk + rowsWL kN`, `totalWI = totalW + incWI`, `twtWI = totalWI + taxWI`,
+`advWI = #advances·(1 + twtWI)`, `dueWI = twtWI + advWI`.  Without an included category `incB = kN = 0`
+and these are the weights of `calc_eq_spec`. -/
+
+/-- **calc_eq_spec_included** — the statement of `calc_eq_spec` for the class `DocCI`: as `DocC`, but
+`d.includes` may name a tax category, which must not be retained (the calculation fails otherwise:
+`CalcErr.retainedIncluded`, no `out`) and whose percentages must not be negative.  Every presented
+total, `tax_included` among them, is the half-away rounding at currency precision of a working value
+within weight × half a unit of the working precision of `Spec.C01.exactQ d` (whose row totals have
+the included tax taken out by an exact division). -/
+theorem calc_eq_spec_included (ret : String → Bool) (d : Doc) (out : Out) (t : Totals) (hd : DocCI ret d)
+    (hcalc : calculate exactOps d = .ok out) (ht : out.totals = some t) :
+    ∃ w : Totals, t = roundTotals exactOps d.c w ∧
+      (presents d.c t.sum w.sum.toRat ∧ presents d.c t.total w.total.toRat ∧
+       presents d.c t.tax w.tax.toRat ∧ presents d.c t.totalWithTax w.totalWithTax.toRat ∧
+       presents d.c t.payable w.payable.toRat ∧
+       (∀ x, t.taxIncluded = some x → ∃ y, w.taxIncluded = some y ∧ presents d.c x y.toRat) ∧
+       (∀ x, t.discount = some x → ∃ y, w.discount = some y ∧ presents d.c x y.toRat) ∧
+       (∀ x, t.charge = some x → ∃ y, w.charge = some y ∧ presents d.c x y.toRat) ∧
+       (∀ x, t.advances = some x → ∃ y, w.advances = some y ∧ presents d.c x y.toRat) ∧
+       (∀ x, t.due = some x → ∃ y, w.due = some y ∧ presents d.c x y.toRat)) ∧
+      (|w.sum.toRat - (exactQ d).sum| ≤ (sumW d.lines : ℚ) * halfUlp (d.c + 2) ∧
+       |optQ w.discount - (exactQ d).discount| ≤ (adjW (sumW d.lines) d.discounts.length : ℚ) * halfUlp (d.c + 2) ∧
+       |optQ w.charge - (exactQ d).charge| ≤ (adjW (sumW d.lines) d.charges.length : ℚ) * halfUlp (d.c + 2) ∧
+       |optQ w.taxIncluded - (exactQ d).taxIncluded| ≤
+         (incWI d (incGroupsT d.includes t) : ℚ) * halfUlp (d.c + 2) ∧
+       |w.total.toRat - (exactQ d).total| ≤ (totalWI d (incGroupsT d.includes t) : ℚ) * halfUlp (d.c + 2) ∧
+       |w.tax.toRat - (exactQ d).tax| ≤ (taxWI d (groupsT t) : ℚ) * halfUlp (d.c + 2) ∧
+       |w.totalWithTax.toRat - (exactQ d).totalWithTax| ≤
+         (twtWI d (groupsT t) (incGroupsT d.includes t) : ℚ) * halfUlp (d.c + 2) ∧
+       |w.payable.toRat - (exactQ d).payable| ≤
+         (twtWI d (groupsT t) (incGroupsT d.includes t) : ℚ) * halfUlp (d.c + 2) ∧
+       |optQ w.advances - (exactQ d).advances| ≤
+         (advWI d (groupsT t) (incGroupsT d.includes t) : ℚ) * halfUlp (d.c + 2) ∧
+       (∀ y, w.due = some y → |y.toRat - (exactQ d).due| ≤
+         (dueWI d (groupsT t) (incGroupsT d.includes t) : ℚ) * halfUlp (d.c + 2))) := by
+  obtain ⟨p, tx, hpre, htx, _, htr⟩ := calculate_unpack d out t hcalc ht
+  have hG : groupsT t = groupsOf tx.cats := by rw [htr]; exact groupsT_round d p tx
+  have hGk : incGroupsT d.includes t = incGroupsOf d.includes tx.cats := by rw [htr]; exact groupsT_round_inc d p tx
+  have hw := working_spec_inc d p tx hd hpre htx
+  have hopt : ∀ (o : Option Amount) (x : Amount), o.map (exactOps.rescale · d.c) = some x →
+      ∃ y, o = some y ∧ presents d.c x y.toRat := by
+    intro o x hx
+    simp only [Option.map_eq_some_iff] at hx
+    obtain ⟨y, hy, rfl⟩ := hx
+    exact ⟨y, hy, presents_rescale d.c y⟩
+  refine ⟨rawTotals exactOps d p tx, htr, ?_, ?_⟩
+  · rw [htr]
+    exact ⟨presents_rescale _ _, presents_rescale _ _, presents_rescale _ _, presents_rescale _ _,
+      presents_rescale _ _, hopt _, hopt _, hopt _, hopt _, hopt _⟩
+  · rw [hG, hGk]; exact hw
+
+/-- **the explicit bound with an included category** — for a document of the class `DocCI`, every
+presented total (`tax_included` too) is within half a minor unit plus `dueWI` half-units of the
+working precision of the exact rational value; in particular (`N = 99`) less than one minor unit
+when `dueWI d G Gk < 100` -/
+theorem included_explicit_bound (ret : String → Bool) (d : Doc) (out : Out) (t : Totals) (hd : DocCI ret d)
+    (hcalc : calculate exactOps d = .ok out) (ht : out.totals = some t) :
+    let B := halfUlp d.c + (dueWI d (groupsT t) (incGroupsT d.includes t) : ℚ) * halfUlp (d.c + 2)
+    |t.sum.toRat - (exactQ d).sum| ≤ B ∧ |t.total.toRat - (exactQ d).total| ≤ B ∧
+    |t.tax.toRat - (exactQ d).tax| ≤ B ∧ |t.totalWithTax.toRat - (exactQ d).totalWithTax| ≤ B ∧
+    |t.payable.toRat - (exactQ d).payable| ≤ B ∧
+    (∀ x, t.taxIncluded = some x → |x.toRat - (exactQ d).taxIncluded| ≤ B) ∧
+    (∀ x, t.discount = some x → |x.toRat - (exactQ d).discount| ≤ B) ∧
+    (∀ x, t.charge = some x → |x.toRat - (exactQ d).charge| ≤ B) ∧
+    (∀ x, t.advances = some x → |x.toRat - (exactQ d).advances| ≤ B) ∧
+    (∀ x, t.due = some x → |x.toRat - (exactQ d).due| ≤ B) := by
+  intro B
+  obtain ⟨w, htr, _, b1, b2, b3, bi, b4, b5, b6, b7, b8, b9⟩ := calc_eq_spec_included ret d out t hd hcalc ht
+  set G := groupsT t
+  set Gk := incGroupsT d.includes t
+  have m1 : twtWI d G Gk ≤ dueWI d G Gk := Nat.le_add_right _ _
+  have m2 : advWI d G Gk ≤ dueWI d G Gk := Nat.le_add_left _ _
+  have m3 : totalWI d Gk ≤ twtWI d G Gk := Nat.le_add_right _ _
+  have m4 : taxWI d G ≤ twtWI d G Gk := Nat.le_add_left _ _
+  have m3' : totalW d ≤ totalWI d Gk := Nat.le_add_right _ _
+  have m8 : incWI d Gk ≤ totalWI d Gk := Nat.le_add_left _ _
+  have m5 : sumW d.lines ≤ totalW d := by
+    unfold totalW
+    have : sumW d.lines ≤ sumW d.lines * (1 + d.discounts.length + d.charges.length) :=
+      Nat.le_mul_of_pos_right _ (by omega)
+    omega
+  have m6 : adjW (sumW d.lines) d.discounts.length ≤ totalW d := by
+    unfold totalW adjW
+    have : sumW d.lines * (1 + d.discounts.length + d.charges.length) =
+        sumW d.lines + d.discounts.length * sumW d.lines + sumW d.lines * d.charges.length := by ring
+    rw [this, Nat.mul_add, Nat.mul_one]
+    omega
+  have m7 : adjW (sumW d.lines) d.charges.length ≤ totalW d := by
+    unfold totalW adjW
+    have : sumW d.lines * (1 + d.discounts.length + d.charges.length) =
+        sumW d.lines + sumW d.lines * d.discounts.length + d.charges.length * sumW d.lines := by ring
+    rw [this, Nat.mul_add, Nat.mul_one]
+    omega
+  have h0 := halfUlp_nonneg (d.c + 2)
+  have hs : ∀ (a : Amount) (q : ℚ) (n : ℕ), n ≤ dueWI d G Gk → |a.toRat - q| ≤ (n : ℚ) * halfUlp (d.c + 2) →
+      |(a.rescaleX d.c).toRat - q| ≤ B := by
+    intro a q n hle h
+    have h1 := rescaleX_err a d.c
+    have hn : (n : ℚ) ≤ (dueWI d G Gk : ℚ) := by exact_mod_cast hle
+    have h2 := mul_le_mul_of_nonneg_right hn h0
+    have e : (a.rescaleX d.c).toRat - q = ((a.rescaleX d.c).toRat - a.toRat) + (a.toRat - q) := by ring
+    rw [e]
+    refine le_trans (abs_add_le _ _) ?_
+    show _ ≤ halfUlp d.c + (dueWI d G Gk : ℚ) * halfUlp (d.c + 2)
+    linarith
+  have ho : ∀ (o : Option Amount) (q : ℚ) (n : ℕ), n ≤ dueWI d G Gk → |optQ o - q| ≤ (n : ℚ) * halfUlp (d.c + 2) →
+      ∀ x, o.map (exactOps.rescale · d.c) = some x → |x.toRat - q| ≤ B := by
+    intro o q n hle h x hx
+    simp only [Option.map_eq_some_iff] at hx
+    obtain ⟨y, hy, rfl⟩ := hx
+    rw [hy] at h
+    exact hs y q n hle h
+  rw [htr]
+  refine ⟨hs _ _ _ (by omega) b1, hs _ _ _ (by omega) b4, hs _ _ _ (by omega) b5, hs _ _ _ (by omega) b6,
+    hs _ _ _ (by omega) b7, ho _ _ _ (by omega) bi, ho _ _ _ (by omega) b2, ho _ _ _ (by omega) b3,
+    ho _ _ _ (by omega) b8, ?_⟩
+  intro x hx
+  have hx' : w.due.map (exactOps.rescale · d.c) = some x := hx
+  simp only [Option.map_eq_some_iff] at hx'
+  obtain ⟨y, hy, rfl⟩ := hx'
+  exact hs y _ _ (Nat.le_refl _) (b9 y hy)
+
+/-- the same with the hypotheses the model driver evaluates (`Spec.C01`: `inDocI`, `docWeightI`);
+the check holds the real library's output of every generated document of this class to it (counter
+`error-bound:in-proved-class-included`) -/
+theorem decided_class_bound_included (d : Doc) (out : Out) (t : Totals) (hcls : inDocI d = true)
+    (hcalc : calculate exactOps d = .ok out) (ht : out.totals = some t) :
+    let B := halfUlp d.c + (docWeightI d : ℚ) * halfUlp (d.c + 2)
+    |t.sum.toRat - (exactQ d).sum| ≤ B ∧ |t.total.toRat - (exactQ d).total| ≤ B ∧
+    |t.tax.toRat - (exactQ d).tax| ≤ B ∧ |t.totalWithTax.toRat - (exactQ d).totalWithTax| ≤ B ∧
+    |t.payable.toRat - (exactQ d).payable| ≤ B ∧
+    (∀ x, t.taxIncluded = some x → |x.toRat - (exactQ d).taxIncluded| ≤ B) ∧
+    (∀ x, t.discount = some x → |x.toRat - (exactQ d).discount| ≤ B) ∧
+    (∀ x, t.charge = some x → |x.toRat - (exactQ d).charge| ≤ B) ∧
+    (∀ x, t.advances = some x → |x.toRat - (exactQ d).advances| ≤ B) ∧
+    (∀ x, t.due = some x → |x.toRat - (exactQ d).due| ≤ B) := by
+  rw [docWeightI_eq d out t hcalc ht]
+  exact included_explicit_bound (retOf d) d out t (inDocI_sound d hcls) hcalc ht
+
+/-- **precise_error_lt_unit_included** — class `DocCI`, largest weight below 100: every presented
+total, `tax_included` too, is less than one minor currency unit from the exact rational value -/
+theorem precise_error_lt_unit_included (ret : String → Bool) (d : Doc) (out : Out) (t : Totals) (hd : DocCI ret d)
+    (hn : dueWI d (groupsT t) (incGroupsT d.includes t) < 100)
+    (hcalc : calculate exactOps d = .ok out) (ht : out.totals = some t) :
+    let U := 1 / ((pow10 d.c : ℤ) : ℚ)
+    |t.sum.toRat - (exactQ d).sum| < U ∧ |t.total.toRat - (exactQ d).total| < U ∧
+    |t.tax.toRat - (exactQ d).tax| < U ∧ |t.totalWithTax.toRat - (exactQ d).totalWithTax| < U ∧
+    |t.payable.toRat - (exactQ d).payable| < U ∧
+    (∀ x, t.taxIncluded = some x → |x.toRat - (exactQ d).taxIncluded| < U) ∧
+    (∀ x, t.discount = some x → |x.toRat - (exactQ d).discount| < U) ∧
+    (∀ x, t.charge = some x → |x.toRat - (exactQ d).charge| < U) ∧
+    (∀ x, t.advances = some x → |x.toRat - (exactQ d).advances| < U) ∧
+    (∀ x, t.due = some x → |x.toRat - (exactQ d).due| < U) := by
+  intro U
+  have hb := included_explicit_bound ret d out t hd hcalc ht
+  simp only at hb
+  have hp := p10q_pos d.c
+  have hp2 : ((pow10 (d.c + 2) : ℤ) : ℚ) = ((pow10 d.c : ℤ) : ℚ) * 100 := by
+    unfold pow10; push_cast; ring
+  have hu2 : halfUlp (d.c + 2) = 1 / (200 * ((pow10 d.c : ℤ) : ℚ)) := by
+    unfold halfUlp; rw [hp2]; ring
+  have hu : halfUlp d.c = 1 / (2 * ((pow10 d.c : ℤ) : ℚ)) := rfl
+  have hlt : halfUlp d.c + (dueWI d (groupsT t) (incGroupsT d.includes t) : ℚ) * halfUlp (d.c + 2) < U := by
+    have hN : (dueWI d (groupsT t) (incGroupsT d.includes t) : ℚ) ≤ 99 := by
+      have : dueWI d (groupsT t) (incGroupsT d.includes t) ≤ 99 := by omega
+      exact_mod_cast this
+    have hpos200 : (0 : ℚ) ≤ 1 / (200 * ((pow10 d.c : ℤ) : ℚ)) := by positivity
+    have h1 := mul_le_mul_of_nonneg_right hN hpos200
+    rw [hu, hu2]
+    have : 1 / (2 * ((pow10 d.c : ℤ) : ℚ)) + 99 * (1 / (200 * ((pow10 d.c : ℤ) : ℚ))) < U := by
+      show _ < 1 / ((pow10 d.c : ℤ) : ℚ)
+      rw [div_add' _ _ _ (by positivity), ← sub_pos]
+      field_simp
+      ring_nf
+      positivity
+    linarith
+  obtain ⟨a1, a2, a3, a4, a5, a6, a7, a8, a9, a10⟩ := hb
+  exact ⟨lt_of_le_of_lt a1 hlt, lt_of_le_of_lt a2 hlt, lt_of_le_of_lt a3 hlt, lt_of_le_of_lt a4 hlt,
+    lt_of_le_of_lt a5 hlt, fun x hx => lt_of_le_of_lt (a6 x hx) hlt, fun x hx => lt_of_le_of_lt (a7 x hx) hlt,
+    fun x hx => lt_of_le_of_lt (a8 x hx) hlt, fun x hx => lt_of_le_of_lt (a9 x hx) hlt,
+    fun x hx => lt_of_le_of_lt (a10 x hx) hlt⟩
+
+/-- prices including VAT: 3 × 12.10 gross at 21 % with a 12.5 % line discount, 1.2 × 2.222 gross at
+10.5 % (and a retained 15 %), an exempt line 2 × 0.335, a fixed document discount of 0.50 gross at
+21 %; an advance of 30 % -/
+def incDoc : Doc :=
+  { cur := "EUR", c := 2, rule := .precise, includes := some "VAT",
+    lines := [{ qty := ⟨3, 0⟩, item := some { price := some ⟨1210, 2⟩, cur := "", sub := 2, alts := [] },
+                discounts := [{ percent := some ⟨⟨125, 3⟩⟩, base := none, amount := ⟨0, 0⟩, rate := none, quantity := none }],
+                charges := [], breakdown := [],
+                taxes := [{ cat := "VAT", country := "", key := "standard", percent := some ⟨⟨21, 2⟩⟩,
+                            surcharge := none, ext := "", retained := false }] },
+              { qty := ⟨12, 1⟩, item := some { price := some ⟨2222, 3⟩, cur := "", sub := 2, alts := [] },
+                discounts := [], charges := [], breakdown := [],
+                taxes := [{ cat := "VAT", country := "", key := "reduced", percent := some ⟨⟨105, 3⟩⟩,
+                            surcharge := none, ext := "", retained := false },
+                          { cat := "IRPF", country := "", key := "pro", percent := some ⟨⟨15, 2⟩⟩,
+                            surcharge := none, ext := "", retained := true }] },
+              { qty := ⟨2, 0⟩, item := some { price := some ⟨335, 3⟩, cur := "", sub := 2, alts := [] },
+                discounts := [], charges := [], breakdown := [],
+                taxes := [{ cat := "VAT", country := "", key := "exempt", percent := none,
+                            surcharge := none, ext := "", retained := false }] }],
+    discounts := [{ percent := none, base := none, amount := ⟨50, 2⟩,
+                    taxes := [{ cat := "VAT", country := "", key := "standard", percent := some ⟨⟨21, 2⟩⟩,
+                                surcharge := none, ext := "", retained := false }] }],
+    charges := [], rates := [], rounding := none, hasPayment := true,
+    advances := [{ percent := some ⟨⟨30, 2⟩⟩, amount := ⟨0, 0⟩ }], dues := [] }
+
+/-- non-vacuity of the included-tax theorems: `incDoc` is in the decided class (so `DocCI (retOf incDoc)
+incDoc` holds by `inDocI_sound`), two VAT groups with a percentage and one exempt (`G = 4` with the
+retained group, `Gk = 3`), largest weight 97 < 100 (`taxWI` = 4 + 16 = 20, `incWI` = 3 + 14 = 17,
+`totalW` = 11).  Exact values: sum 31.7625 + 2.6664 + 0.67 =
+35.0989 (presented 35.10), discount 0.50, included VAT (31.7625 − 0.50)·0.21/1.21 + 2.6664·0.105/1.105 =
+5.67912… (presented 5.68), total 28.91978… (28.92), tax 5.67912… − 2.6664/1.105·0.15 = 5.31717… (5.32),
+total with tax 34.23695… (34.24), advance 10.27108… (10.27), due 23.96586… (23.97) -/
+example : inDocI incDoc = true ∧ inDocC incDoc = false ∧
+    ((calculate exactOps incDoc).toOption.bind (·.totals)).map
+      (fun t => (groupsT t, incGroupsT incDoc.includes t, dueWI incDoc (groupsT t) (incGroupsT incDoc.includes t))) =
+      some (4, 3, 97) ∧
+    ((calculate exactOps incDoc).toOption.bind (·.totals)).map (fun t => (t.sum, t.discount, t.taxIncluded, t.total)) =
+      some (⟨3510, 2⟩, some ⟨50, 2⟩, some ⟨568, 2⟩, ⟨2892, 2⟩) ∧
+    ((calculate exactOps incDoc).toOption.bind (·.totals)).map (fun t => (t.tax, t.totalWithTax, t.advances, t.due)) =
+      some (⟨532, 2⟩, ⟨3424, 2⟩, some ⟨1027, 2⟩, some ⟨2397, 2⟩) := by
+  refine ⟨by decide, by decide, by decide, by decide, by decide⟩
 
 /-! ## pinned source shapes (regenerated facts; tools/pin_calc_expect.py) -/
 
